@@ -211,6 +211,10 @@ impl util::BitVec
 	{	
 		let mut result = String::new();
 
+		// The upper 16 bits of the address, as set by the
+		// latest Extended Linear Address record
+		let mut addr_upper = 0_u16;
+
 		let mut flush_bytes = |
 			read_index: usize,
 			accum_index: &mut usize,
@@ -220,8 +224,31 @@ impl util::BitVec
 
 			if length > 0
 			{
-				let addr_hi = ((*accum_index / address_unit) >> 8) as u8;
-				let addr_lo = (*accum_index / address_unit) as u8;
+				let addr = *accum_index / address_unit;
+				let addr_hi = (addr >> 8) as u8;
+				let addr_lo = addr as u8;
+
+				// A data record only carries the lower 16 bits
+				// of its address
+				let upper = (addr >> 16) as u16;
+				if upper != addr_upper
+				{
+					addr_upper = upper;
+
+					let upper_hi = (upper >> 8) as u8;
+					let upper_lo = upper as u8;
+
+					let checksum = 0x02_u8
+						.wrapping_add(0x04)
+						.wrapping_add(upper_hi)
+						.wrapping_add(upper_lo);
+
+					result.push_str(&format!(
+						":02000004{:02X}{:02X}{:02X}\n",
+						upper_hi,
+						upper_lo,
+						(!checksum).wrapping_add(1)));
+				}
 
 				result.push(':');
 				result.push_str(&format!("{:02X}", length));
